@@ -309,8 +309,15 @@ def _inline_call(methods, call, how, target, depth, stop=(), ho_only=False, impu
     elif how == 'return':
         pass
     else:   # assign
-        body = _replace_returns(body, lambda v: [] if noop(target, v) else [ast.Assign(targets=[copy.deepcopy(target)], value=v if v is not None else ast.Constant(value=None),
-                                                                                          lineno=call.lineno, col_offset=0)])
+        def mk_assign(v):
+            if noop(target, v):
+                return []
+            if isinstance(target, ast.Tuple) and isinstance(v, ast.Tuple) and len(target.elts) == len(v.elts) and all(isinstance(t_, ast.Name) for t_ in target.elts) \
+                    and not ({t_.id for t_ in target.elts} & {n.id for n in ast.walk(v) if isinstance(n, ast.Name)}):
+                # a, b = (x, y) with independent sides: one assignment per name
+                return [ast.Assign(targets=[copy.deepcopy(t_)], value=x_, lineno=call.lineno, col_offset=0) for t_, x_ in zip(target.elts, v.elts)]
+            return [ast.Assign(targets=[copy.deepcopy(target)], value=v if v is not None else ast.Constant(value=None), lineno=call.lineno, col_offset=0)]
+        body = _replace_returns(body, mk_assign)
     out = pre + body
     for s in out:
         for n in ast.walk(s):
